@@ -1194,7 +1194,7 @@ def real_run(case, layout=None):
                 so = Atom('halted')
             else:
                 try:
-                    with watchdog(30):
+                    with watchdog(10):
                         ev = next(its[i])
                     so = [Atom('ev'), evwire.ev(ev)]
                 except StopIteration:
